@@ -107,13 +107,18 @@ def disasmNameWith (lim : Option Nat) (v : Nat) (a : List Nat) : Option (List Na
 /-- … as the sources have it now (`disasmKeywordMaxLen` is regenerated). -/
 def disasmName (v : Nat) (a : List Nat) : Option (List Nat) := disasmNameWith disasmKeywordMaxLen v a
 
-/-- `translate_head` of the stepping evaluator (src/compiler/clvm.rs): the operator in head
-    position — an `Atom v`, or an `Integer i` through its byte image `u8_from_number(i)` — is first
-    looked up in `prim_map()` AS A NAME; only when it is no primitive name is it run as the opcode
-    it is.  For an operator atom `a` this is the atom the evaluator actually hands to the runner. -/
+/-- is `a` the operator atom of some primitive (`prim_map.values().any(..)` on the integer)? -/
+def isPrimOpcode (a : List Nat) : Bool := prims.any (fun p => atomOfInt p.2 == a)
+
+/-- `translate_head` of the stepping evaluator (src/compiler/clvm.rs) on an operator atom `a` of
+    compiled code, which reaches it as `Integer` (convert_from_clvm_rs spells every minimally
+    encoded atom so): an integer that already IS a primitive's opcode is left alone
+    (fix: 5f6df3d; before, 61 `%` was run as `=` and 62 `keccak256` as `>`); any other integer is
+    looked up in `prim_map()` through its byte image AS A NAME, and only when it is no primitive
+    name is it run as the opcode it is. -/
 def stepperOp (a : List Nat) : List Nat :=
   match primMap a with
-  | some code => atomOfInt code
+  | some code => if isPrimOpcode a then a else atomOfInt code
   | none => a
 
 /-- all operator atoms any table or dialect mentions that are not a single byte. -/
